@@ -166,8 +166,15 @@ func (e *env) entries() []entry {
 			if json.Unmarshal(b, &lj) == nil {
 				_ = lj.Validate()
 				_, _ = jwsutil.GetED25519PublicKey(&lj)
-				_ = jwsutil.VerifySignature(&lj, []byte("sig"), []byte("msg"))
-				_ = jwsutil.VerifySignature(&lj, make([]byte, 64), []byte("msg"))
+				// signatures of every length class: none, empty, one byte, each curve's width and one more
+				for _, n := range []int{-1, 0, 1, 3, 63, 64, 65, 96, 132, 133} {
+					var sig []byte
+					if n >= 0 {
+						sig = make([]byte, n)
+					}
+					_ = jwsutil.VerifySignature(&lj, sig, []byte("msg"))
+				}
+				_ = jwsutil.VerifySignature(&lj, make([]byte, 64), nil)
 				_, _ = commitment.GetCommitment(&lj, 18)
 				_, _ = commitment.GetRevealValue(&lj, 18)
 			}
